@@ -95,4 +95,13 @@ macro_rules
   | `(tactic| mgsimp [$ts,*]) => `(tactic| simp [run, exec, eval, MiniGo.bind, bindMany, Env.bind1, Env.set, Env.get,
       Val.toList, Val.ofList, Val.len, Val.dynType, Val.payload, binop, unop, Out.fx, Out.val?, fxOf, logFx, $ts,*])
 
+/-- `mgsimps`: the same for a *symbolic* environment: `Env.set` / `Env.get` are not unfolded, look-ups go through
+    `Env.get_set_same` and the instances of `Env.get_set_other` given as extra lemmas. -/
+syntax "mgsimps" ("[" Lean.Parser.Tactic.simpLemma,* "]")? : tactic
+macro_rules
+  | `(tactic| mgsimps) => `(tactic| simp [run, exec, eval, MiniGo.bind, bindMany, Env.bind1,
+      Val.toList, Val.ofList, Val.len, Val.dynType, Val.payload, binop, unop, Out.fx, Out.val?])
+  | `(tactic| mgsimps [$ts,*]) => `(tactic| simp [run, exec, eval, MiniGo.bind, bindMany, Env.bind1,
+      Val.toList, Val.ofList, Val.len, Val.dynType, Val.payload, binop, unop, Out.fx, Out.val?, $ts,*])
+
 end Jrpc.MiniGo
